@@ -128,8 +128,14 @@ def generate(seed, tier):
         if rng.random() < 0.4:
             # the same specification again, for a treebank of another size
             calls.append([calls[-1][0], rng.choice([n + 3, max(0, n - 2), 7, 2 * n])])
-    dest_name = rng.choice(["d", "d", "d", "tb_50%_rest", "out%d", "a%%b", "x.y-z", "ü"])
-    return {"tb": tb, "src_fmt": src_fmt, "dest_fmt": dest_fmt, "dopts": dopts, "spec": spec,
+    dest_name = rng.choice(["d", "d", "d", "tb_50%_rest", "out%d", "a%%b", "x.y-z", "ü",
+                            "d.gz", "tb.export.gz"])
+    before = None
+    if rng.random() < 0.3:
+        # an earlier split run in the same process, mostly one that is rejected after reading
+        before = rng.choice(["%d#_rest" % (size + rng.randint(1, 5)), "50%_60%", "abc", "3#_x",
+                             "rest", "1#_rest" if size else "rest"])
+    return {"tb": tb, "before": before, "src_fmt": src_fmt, "dest_fmt": dest_fmt, "dopts": dopts, "spec": spec,
             "filter": flt, "calls": calls, "layout": rng.randrange(1 << 30),
             "src_enc": src_enc, "dest_enc": dest_enc, "dest_name": dest_name,
             "io_seed": rng.randrange(1 << 30)}
@@ -169,7 +175,8 @@ def execute(sc, sim):
     st = cm.Stats()
     st.declare("spec_rejected", "remainder_to_largest_part", "tie_for_largest_part",
                "empty_part", "filter_dropped_trees", "size_zero_treebank", "percent_part",
-               "rest_part", "arithmetic_calls")
+               "rest_part", "arithmetic_calls", "earlier_split_run_in_same_process",
+               "earlier_split_run_failed")
     viols = []
     tb = sc["tb"]
     codec = {"export": "export4", "tigerxml": "tigerxml",
@@ -204,10 +211,24 @@ def execute(sc, sim):
     except views.Refusal:
         refusal = True
         wv = None
-    base = {"files": {"/sim/w/src": src}, "dirs": ["/sim/w/out"], "io_seed": sc["io_seed"]}
-    obs = sim.run(dict(base, sessions=[{"id": "c", "ops": [["cli", argv(sc, True)]]}]))
+    base = {"files": {"/sim/w/src": src}, "dirs": ["/sim/w/out", "/sim/w/pre"],
+            "io_seed": sc["io_seed"]}
+    ops = [["cli", argv(sc, True)]]
+    if sc.get("before"):
+        st.probe("earlier_split_run_in_same_process")
+        st.fault("history")
+        pre = argv(dict(sc, spec=sc["before"]), True)
+        pre[2] = "/sim/w/pre/p"
+        ops.insert(0, ["cli", pre])
+    obs = sim.run(dict(base, sessions=[{"id": "c", "ops": ops, "on_error": "continue"}]))
     st.add_obs(obs)
-    rec = obs["sessions"]["c"][0]
+    if len(obs["sessions"]["c"]) != len(ops) and not obs.get("hang"):
+        return done(sc, st, [cm.viol("C17/second-run-missing")])
+    rec = obs["sessions"]["c"][-1] if obs["sessions"]["c"] else {"exc": "hang"}
+    if sc.get("before") and len(obs["sessions"]["c"]) == 2:
+        r0 = obs["sessions"]["c"][0]
+        if "exc" in r0 or r0["ok"].get("exit") != 0:
+            st.probe("earlier_split_run_failed")
     failed = "exc" in rec or rec["ok"].get("exit") != 0
     if obs.get("hang"):
         return done(sc, st, [cm.viol("C17/hang", spec=sc["spec"])])
@@ -373,6 +394,10 @@ def shrink_candidates(sc):
                     c = model.clone(sc)
                     c["calls"][i][1] = n2
                     yield c
+    if sc.get("before"):
+        c = model.clone(sc)
+        c["before"] = None
+        yield c
     if sc["filter"]:
         c = model.clone(sc)
         c["filter"] = None
